@@ -154,3 +154,10 @@ Theorem C01_code_define_by_did_2_request : forall cfg did src pos size src2 pos2
   fn_define_by_did_2_request did src pos size src2 pos2 size2 = payload_of (dddi_define_make cfg did (DefByDid [(src, pos, size); (src2, pos2, size2)])).
 Proof. exact tie_define_by_did_2_request. Qed.
 Print Assumptions C01_code_define_by_did_2_request.
+
+(* ---- the code is the model: communication_control with the communication type given as an integer (Gen/Fn_SimpleReq.v) ---- *)
+From UDS Require Import Proofs.Tie_commctl.
+Theorem C01_code_communication_control_request : forall cfg ct v node, std cfg = 2020 ->
+  fn_communication_control_request ct v node = (cty <- ct_normalize (CtInt v) ;; payload_of (cc_make cfg ct cty node)).
+Proof. exact tie_communication_control_request. Qed.
+Print Assumptions C01_code_communication_control_request.
